@@ -540,7 +540,11 @@ impl IsExecutableFile for VirtualSystem {
     fn is_executable_file(&self, path: &CStr) -> bool {
         let path = Path::new(UnixStr::from_bytes(path.to_bytes()));
         self.resolve_existing_file(AT_FDCWD, path, /* follow symlinks */ true)
-            .is_ok_and(|inode| inode.borrow().permissions.intersects(Mode::ALL_EXEC))
+            .is_ok_and(|inode| {
+                let inode = inode.borrow();
+                matches!(inode.body, FileBody::Regular { .. })
+                    && inode.permissions.intersects(Mode::ALL_EXEC)
+            })
     }
 }
 
@@ -1831,6 +1835,24 @@ mod tests {
         state.file_system.save(path, content).unwrap();
         drop(state);
         assert!(system.is_executable_file(c"/some/file"));
+    }
+
+    #[test]
+    fn is_executable_file_with_executable_directory() {
+        let system = VirtualSystem::new();
+        let path = "/some/dir";
+        let mut content = Inode {
+            body: FileBody::Directory {
+                files: Default::default(),
+            },
+            ..Inode::default()
+        };
+        content.permissions.set(Mode::ALL_EXEC, true);
+        let content = Rc::new(RefCell::new(content));
+        let mut state = system.state.borrow_mut();
+        state.file_system.save(path, content).unwrap();
+        drop(state);
+        assert!(!system.is_executable_file(c"/some/dir"));
     }
 
     #[test]
